@@ -150,7 +150,16 @@ struct WrapV { v: sonic_rs::Value }
 
 fn wrap(pre: &[u8], b: &[u8], post: &[u8]) -> Vec<u8> { let mut v = pre.to_vec(); v.extend_from_slice(b); v.extend_from_slice(post); v }
 pub static DUMP_ON: std::sync::atomic::AtomicBool = std::sync::atomic::AtomicBool::new(true);
-fn dv(v: &sonic_rs::Value) -> Option<J> { if !DUMP_ON.load(std::sync::atomic::Ordering::Relaxed) { return None; } Some(dump_value(v).unwrap_or_else(|e| json!({"t":"inconsistent","why":e}))) }
+/// other documents parsed on the same thread between obtaining a value and reading it (default mode, raw-number mode, several
+/// values through one deserializer): a value owns its data, nothing it holds may change
+fn interfere() {
+    let _ = sonic_rs::from_str::<sonic_rs::Value>("[9.75,\"zz\",{\"q\":[1,2,3]}]");
+    let mut de = sonic_rs::Deserializer::from_str("8.125").use_rawnumber();
+    let _: Result<sonic_rs::Value, _> = de.deserialize();
+    let mut de = sonic_rs::Deserializer::from_str("\"another\" 77 [5] -3e-7").use_rawnumber();
+    for _ in 0..4 { let _: Result<sonic_rs::Value, _> = de.deserialize(); }
+}
+fn dv(v: &sonic_rs::Value) -> Option<J> { if !DUMP_ON.load(std::sync::atomic::Ordering::Relaxed) { return None; } interfere(); Some(dump_value(v).unwrap_or_else(|e| json!({"t":"inconsistent","why":e}))) }
 fn s(b: &[u8]) -> &str { std::str::from_utf8(b).unwrap() }
 
 pub fn entry_points() -> Vec<Ep> {
